@@ -919,6 +919,8 @@ class Frame:
     def _havoc(self, names, attrs, subs):
         """replace loop-modified state by fresh symbols of the same shape"""
         def hv(val, base):
+            if hasattr(val, 'pv_stateless'):
+                return val        # stateless ghost value of a contract (event sink, opaque token): nothing to forget
             if isinstance(val, SV):
                 if val.is_bool:
                     return val.like(self.I.fresh(base, 'bool'))
